@@ -5,9 +5,15 @@
 From Coq Require Import ZArith List Bool.
 From Coq.Strings Require Import Byte.
 From Verif Require Import Lib.Bytes Model.Wire Model.TxCodec Model.Sighash
-  Proofs.Sighash Proofs.SighashEq Proofs.SighashCommit Proofs.SighashSession Gen.GenConsts Crypto.Sha256 Crypto.Ripemd160 Crypto.HashLemmas.
+  Proofs.Sighash Proofs.SighashEq Proofs.SighashCommit Proofs.SighashSession Gen.GenConsts Gen.GenFuncs Glue.WireGlue Crypto.Sha256 Crypto.Ripemd160 Crypto.HashLemmas.
 Import ListNotations.
 Open Scope Z_scope.
+
+(* --- tie: the length/count encoders every preimage is built from (lib_cs_enc, lib_varstr) are the functions
+       re-translated from bitcoinlib/encoding.py on this run --- *)
+Theorem wire_source_is_model :
+  (forall n, gen_int_to_varbyteint n = lib_cs_enc n) /\ (forall s, gen_varstr s = lib_varstr s).
+Proof. exact (conj gen_int_to_varbyteint_eq gen_varstr_eq). Qed.
 
 (* the script code the library commits to is the consensus script code, for every input kind, key list and m *)
 Theorem script_code_ok : forall (H160 : bytes -> bytes) k keys m,
@@ -317,6 +323,7 @@ Example p2pk_resign_unrepaired_refuted :
   lib_p2pk_scriptsig_at false [] [x48; x30; x45] = lib_varstr [x48; x30; x45].
 Proof. split; [vm_compute; discriminate|reflexivity]. Qed.
 
+Print Assumptions wire_source_is_model.
 Print Assumptions script_code_ok.
 Print Assumptions legacy_preimage_ok.
 Print Assumptions legacy_preimage_ok_ALL.
